@@ -347,7 +347,7 @@ pub fn c13_t_g3_path4<S: Src>(s: &mut S) {
     path_body::<S, 4>(s)
 }
 
-harnesses! { k;
+harnesses! { k, "sel_c13.rs";
     #[kani::unwind(5)] c13_q_g2_tri_r3;
     #[kani::unwind(6)] c13_q_g2_quad_r1;
     #[kani::unwind(6)] c13_t_g2_quad_r2;
